@@ -78,6 +78,8 @@ pub struct NewArgs {
     pub blobs: Vec<(u8, Vec<u8>)>,
     /// addresses mentioned inside the blobs (as typed values they become visible references of the frame)
     pub refs: Vec<ResourceAddress>,
+    /// initial entries of the standalone KeyValueStore owned by the component: key, value, locked
+    pub store: Vec<(u32, Option<u32>, bool)>,
 }
 
 impl NewArgs {
@@ -93,6 +95,7 @@ impl NewArgs {
             kv: vec![],
             blobs: vec![],
             refs: vec![],
+            store: vec![],
         }
     }
 }
@@ -102,6 +105,8 @@ impl NewArgs {
 pub struct RelayState {
     pub child: Option<Own>,
     pub vaults: Vec<(ResourceAddress, Own)>,
+    /// a standalone KeyValueStore<u32, u32> node (its entries go through key_value_store_open_entry)
+    pub store: Option<Own>,
 }
 
 /// the role-protected target methods and their static role lists
@@ -120,7 +125,8 @@ pub const PUBLIC_METHODS: &[&str] = &[
     "kv_read", "set_role_blob", "set_owner_blob",
 ];
 /// key-value operations are protected by the owner role, the field operations are public
-pub const OWNER_METHODS: &[&str] = &["kv_set", "kv_lock", "kv_remove", "kv_lock_set"];
+pub const OWNER_METHODS: &[&str] =
+    &["kv_set", "kv_lock", "kv_remove", "kv_lock_set", "kvs_set", "kvs_lock", "kvs_remove", "kvs_lock_set"];
 
 fn fn_schema(export: &str, receiver: bool) -> FunctionSchemaInit {
     FunctionSchemaInit {
@@ -238,8 +244,12 @@ pub struct TestInvoke;
 
 impl TestInvoke {
     fn relay_fields(child: Option<Own>, field_val: u32, locked: bool) -> IndexMap<FieldIndex, FieldValue> {
+        Self::relay_fields_with_store(child, None, field_val, locked)
+    }
+
+    fn relay_fields_with_store(child: Option<Own>, store: Option<Own>, field_val: u32, locked: bool) -> IndexMap<FieldIndex, FieldValue> {
         indexmap!(
-            0u8 => FieldValue::new(RelayState { child, vaults: vec![] }),
+            0u8 => FieldValue::new(RelayState { child, vaults: vec![], store }),
             1u8 => if locked { FieldValue::immutable(field_val) } else { FieldValue::new(field_val) },
         )
     }
@@ -268,11 +278,23 @@ impl TestInvoke {
         for (k, v, locked) in a.kv {
             kv.insert(scrypto_encode(&k).unwrap(), KVEntry { value: v.map(|v| scrypto_encode(&v).unwrap()), locked });
         }
+        // the standalone store with its initial entries (present / absent, locked or not)
+        let store = api.key_value_store_new(KeyValueStoreDataSchema::new_local_without_self_package_replacement::<u32, u32>(false))?;
+        for (k, v, locked) in &a.store {
+            let h = api.key_value_store_open_entry(&store, &scrypto_encode(k).unwrap(), LockFlags::MUTABLE)?;
+            if let Some(v) = v {
+                api.key_value_entry_set_typed(h, *v)?;
+            }
+            if *locked {
+                api.key_value_entry_lock(h)?;
+            }
+            api.key_value_entry_close(h)?;
+        }
         let node = api.new_object(
             RELAY,
             vec![],
             GenericArgs::default(),
-            Self::relay_fields(child, a.field_val, a.field_locked),
+            Self::relay_fields_with_store(child, Some(Own(store)), a.field_val, a.field_locked),
             indexmap!(0u8 => kv),
         )?;
         let role_assignment = RoleAssignment::create(a.owner, a.roles, api)?.0 .0;
@@ -494,6 +516,28 @@ impl VmInvoke for TestInvoke {
             "kv_remove" => {
                 let (k,): (u32,) = arg(input)?;
                 let _ = api.actor_remove_key_value_entry(ACTOR_STATE_SELF, 0u8, &scrypto_encode(&k).unwrap())?;
+                Ok(unit())
+            }
+            // ---- Locking: entries of the standalone KeyValueStore node ----
+            "kvs_set" | "kvs_lock" | "kvs_lock_set" | "kvs_remove" => {
+                let (k, v): (u32, u32) = arg(input)?;
+                let fh = api.actor_open_field(ACTOR_STATE_SELF, 0u8, LockFlags::read_only())?;
+                let st: RelayState = api.field_read_typed(fh)?;
+                let store = st.store.expect("component without a store");
+                let key = scrypto_encode(&k).unwrap();
+                if export_name == "kvs_remove" {
+                    let _ = api.key_value_store_remove_entry(store.as_node_id(), &key)?;
+                } else {
+                    let h = api.key_value_store_open_entry(store.as_node_id(), &key, LockFlags::MUTABLE)?;
+                    if export_name != "kvs_set" {
+                        api.key_value_entry_lock(h)?;
+                    }
+                    if export_name != "kvs_lock" {
+                        api.key_value_entry_set_typed(h, v)?;
+                    }
+                    api.key_value_entry_close(h)?;
+                }
+                api.field_close(fh)?;
                 Ok(unit())
             }
             "kv_read" => {
